@@ -84,6 +84,14 @@ func c16Scalar(r *core.Rng) any {
 		case 0:
 			return struct{ L []int }{[]int{1, r.Intn(5)}}
 		case 1:
+			switch r.Intn(4) {
+			case 0:
+				return ArrayOp{"=~", "array"}
+			case 1:
+				return MapOp{"s": "~", "c": "map"}
+			case 2:
+				return MapOp(nil)
+			}
 			return SliceOp{Txt: "~~", Ctx: "ctx", Tags: []string{"t"}}
 		}
 		return IfaceStruct{Name: "n", Any: map[string]int{"k": 1}}
@@ -102,6 +110,18 @@ func c16Scalar(r *core.Rng) any {
 	}
 	return fmt.Sprintf("junk%d", r.Intn(50))
 }
+
+// ArrayOp is an Operator whose underlying kind is an array.
+type ArrayOp [2]string
+
+func (o ArrayOp) String() string  { return o[0] }
+func (o ArrayOp) Context() string { return o[1] }
+
+// MapOp / FuncOp: Operators whose underlying kinds are a map and a func.
+type MapOp map[string]string
+
+func (o MapOp) String() string  { return o["s"] }
+func (o MapOp) Context() string { return o["c"] }
 
 // SliceOp is an Operator whose struct type is not comparable.
 type SliceOp struct {
@@ -132,6 +152,9 @@ func c16Row(r *core.Rng, depth int) []any {
 				row = append(row, fmt.Sprintf("kw%d", r.Intn(9)))
 			case i == 1 && r.Chance(1, 12):
 				row = append(row, (*stackage.ComparisonOperator)(nil))
+			case i == 1 && r.Chance(1, 8):
+				// user-defined operators of unusual underlying kinds
+				row = append(row, []any{ArrayOp{"=~", "array"}, MapOp{"s": "~", "c": "map"}, MapOp(nil), SliceOp{Txt: "~~", Ctx: "ctx", Tags: []string{"t"}}, UserOp{"~=", "ctx"}}[r.Intn(5)])
 			case i == 1 && r.Chance(2, 3):
 				row = append(row, stackage.ComparisonOperator(1+r.Intn(6)))
 			case i == 2 && depth > 0 && r.Chance(1, 3):
